@@ -74,8 +74,8 @@ Obs == Has /\ Ev[1] = "obs" /\ o.depth = 0 /\ Consume
        /\ (Ev[2] = "FINISHED" => Ev[4] = "result")
        /\ (Ev[2] = "EXCEPTED" => Ev[4] = "exc")
        /\ (Ev[2] = "KILLED"   => Ev[4] = "killed")
-       /\ (Ev[5] = TRUE => Ev[2] \in Terminal)                                             \* closed only when terminated
-       /\ (o.termHere => Ev[5] = TRUE)                                                    \* terminated in this life => closed
+       /\ (Ev[5] = "T" => Ev[2] \in Terminal)                                              \* closed only when terminated
+       /\ (o.termHere => Ev[5] \in {"T", "?"})                                            \* terminated in this life => closed
        /\ UNCHANGED o
 
 \* leave the current trace (accepted iff fully consumed) and start the next one: every trace gets a verdict
